@@ -148,3 +148,27 @@ Theorem C02_merged_element_type_general_refuted :
   exists xs ys, Permutation xs ys /\ fold_left Types.merge xs Types.TNum <> fold_left Types.merge ys Types.TNum.
 Proof. exact MapRange.fold_merge_order_matters. Qed.
 Print Assumptions C02_merged_element_type_general_refuted.
+
+(* a run in which several files end in a fatal error: every goroutine records its error in its
+   own slot and the slots are scanned in the order of the arguments when all have finished - so
+   the error that is returned does not depend on the order in which the goroutines finish
+   (Out/FatalOrder.v; tied to Linter.LintFiles by the multi-fatal runs of the harness) *)
+From AL Require Out.FatalOrder.
+From Coq Require Import Permutation.
+Theorem C02_fatal_error_schedule_independent : forall (E : Type) (rs : list (option E)) s1 s2,
+  Permutation s1 (seq 0 (length rs)) -> Permutation s2 (seq 0 (length rs)) ->
+  FatalOrder.result_new rs s1 = FatalOrder.result_new rs s2.
+Proof. exact (@FatalOrder.result_new_schedule_independent). Qed.
+Print Assumptions C02_fatal_error_schedule_independent.
+
+Theorem C02_fatal_error_is_first_in_argument_order : forall (E : Type) (rs : list (option E)) sched,
+  Permutation sched (seq 0 (length rs)) -> FatalOrder.result_new rs sched = FatalOrder.first_error rs.
+Proof. exact (@FatalOrder.result_new_is_first_in_argument_order). Qed.
+Print Assumptions C02_fatal_error_is_first_in_argument_order.
+
+(* before ec824d0 the error of the goroutine that failed first was returned *)
+Theorem C02_fatal_error_old_refuted : exists (rs : list (option nat)) s1 s2,
+  Permutation s1 (seq 0 (length rs)) /\ Permutation s2 (seq 0 (length rs)) /\
+  FatalOrder.result_old rs s1 <> FatalOrder.result_old rs s2.
+Proof. exact FatalOrder.result_old_refuted. Qed.
+Print Assumptions C02_fatal_error_old_refuted.
